@@ -22,6 +22,7 @@ META = {
     "not_decided": ["value-level equality/order of all JSON pairs", "exactness of i64->f64 beyond 2^53",
                     "deep equality semantics of arrays/objects (T: PartialEq)"],
 }
+META["explanation"] += " R7 value equality never uses Queryable::get. R8 the reference implementor's as_f64/as_i64/as_str/as_bool are unconditional delegations to serde_json."
 
 QT = "crate::query::queryable::Queryable"
 CMP_PROC = None
